@@ -104,9 +104,9 @@ def memcheck_leg(seed):
 def check(tier, seed, t0):
     common.build_harness()
     common.build_rg()
-    total = 150 if tier == "quick" else 4000
+    total = 600 if tier == "quick" else 15000
     parts = [("lib", common.run_rgmon("c02", tier, seed)),
-             ("cli", common.run_cli_cases("c03", cli_case, seed, "c02cli", total, 25 if tier == "quick" else 100))]
+             ("cli", common.run_cli_cases("c03", cli_case, seed, "c02cli", total, 38 if tier == "quick" else 200))]
     if tier == "thorough":
         import sanitize
         parts.append(("memcheck", memcheck_leg(seed)))
